@@ -112,7 +112,7 @@ int main(int argc, char** argv) {
           w.src.request_stop();
         });
         c.start_all();
-        rr = drive(c);
+        heapacct::skip = true; rr = drive(c); heapacct::skip = false;
         if (rr.deadlock) {
           std::string s = vrt::sched_json(rr);
           vrt::ev("{\"e\":\"Deadlock\",\"sched\":%s}", s.c_str());
